@@ -264,6 +264,11 @@ def colInSpace (IA JA M N : Int) : List (Int × Int) :=
 def rowInSpace (depth : Nat) (IA N : Int) : List (Int × Int) :=
   (irange 0 ((2 : Int) ^ depth - 1)).flatMap fun r => (irange IA N).map fun c => (r, c)
 
+/-- the tiles `src(index, 0)` read by the leaf tasks of reduce_row.jdf (the column parameter is not
+    used in the data reference) -/
+def rowReads (depth : Nat) (IA N : Int) : List (Int × Int) :=
+  (rowInSpace depth IA N).map fun t => (t.1, 0)
+
 /-- `(level, index)` part of the inner task space (one copy per column) -/
 def colSpace (depth : Nat) : List (Nat × Nat) :=
   (List.range' 1 depth).flatMap fun lv => (List.range (2 ^ (depth - lv))).map fun i => (lv, i)
